@@ -1,4 +1,174 @@
-/- driver stub (Fs): replaced by the owner of this model group -/
+/- driver for the FS-step model (C10).  One request per line, `|` separates sections.
+
+   paths     hex of the UTF-8 of the canonical `/`-separated path (fsx canonical form)
+   steps     create P | opena P | openu P | write P n e1 … en | truncate P n | close P | fsync P
+             | replace A B | rename A B | unlink P | rmdir P | mkdir P | symlink TARGETHEX P | read P
+             (content units e_i are natural numbers: ids of the pieces a real chunk was cut into)
+   init      f P n e1 … en | d P | l P TARGETHEX
+
+   atomic T1 … Tn | steps                  ->  AtomicOn Ti steps, e.g. `true false`
+   proto | steps                           ->  `flush T1:kind1 …` when the steps are literally a flush over
+                                               unrelated paths (kind: tmpOf | tildeOf | other), else `none`
+   crash K P T1 … Tn | init | steps        ->  for the state `crashAt init steps K P`: one tag per target
+                                               (old | new | absent | torn | other) and `strays=` the other
+                                               mentioned paths whose node differs from the initial one
+   read POS T | init | steps               ->  tag of what a `read T` inserted before step POS sees
+-/
+import Signac.FsSteps
 import Signac.Wire
-open Signac
-def main : IO Unit := driverLoop (fun _ => "bad-op")
+open Signac Signac.Fs
+
+def parsePath (tok : String) : Option Path :=
+  (unhex tok).map (fun s => s.splitOn "/")
+
+def takeNats : Nat → List String → Option (List Nat × List String)
+  | 0, ts => some ([], ts)
+  | _ + 1, [] => none
+  | n + 1, t :: ts => do
+    let x ← t.toNat?
+    let (xs, rest) ← takeNats n ts
+    pure (x :: xs, rest)
+
+def parseSteps : Nat → List String → Option (List (Step Nat))
+  | _, [] => some []
+  | 0, _ => none
+  | fuel + 1, kind :: ts =>
+    match kind, ts with
+    | "write", p :: n :: rest => do
+      let p ← parsePath p
+      let n ← n.toNat?
+      let (xs, rest') ← takeNats n rest
+      let more ← parseSteps fuel rest'
+      pure (.append p xs :: more)
+    | "truncate", p :: n :: rest => do
+      let p ← parsePath p
+      let n ← n.toNat?
+      let more ← parseSteps fuel rest
+      pure (.truncate p n :: more)
+    | "replace", a :: b :: rest => do
+      let a ← parsePath a
+      let b ← parsePath b
+      let more ← parseSteps fuel rest
+      pure (.rename a b :: more)
+    | "rename", a :: b :: rest => do
+      let a ← parsePath a
+      let b ← parsePath b
+      let more ← parseSteps fuel rest
+      pure (.rename a b :: more)
+    | "symlink", tg :: p :: rest => do
+      let tg ← unhex tg
+      let p ← parsePath p
+      let more ← parseSteps fuel rest
+      pure (.symlink tg p :: more)
+    | k, p :: rest => do
+      let p ← parsePath p
+      let more ← parseSteps fuel rest
+      let s ← (match k with
+        | "create" => some (Step.create p)
+        | "opena" => some (.openAppend p)
+        | "openu" => some (.openAppend p)
+        | "close" => some (.close p)
+        | "fsync" => some (.fsync p)
+        | "unlink" => some (.unlink p)
+        | "rmdir" => some (.rmdir p)
+        | "mkdir" => some (.mkdir p)
+        | "read" => some (.read p)
+        | _ => none)
+      pure (s :: more)
+    | _, _ => none
+
+def parseInit : Nat → List String → Option (List (Path × Node Nat))
+  | _, [] => some []
+  | 0, _ => none
+  | fuel + 1, kind :: ts =>
+    match kind, ts with
+    | "f", p :: n :: rest => do
+      let p ← parsePath p
+      let n ← n.toNat?
+      let (xs, rest') ← takeNats n rest
+      let more ← parseInit fuel rest'
+      pure ((p, .file xs) :: more)
+    | "d", p :: rest => do
+      let p ← parsePath p
+      let more ← parseInit fuel rest
+      pure ((p, .dir) :: more)
+    | "l", p :: tg :: rest => do
+      let p ← parsePath p
+      let tg ← unhex tg
+      let more ← parseInit fuel rest
+      pure ((p, .link tg) :: more)
+    | _, _ => none
+
+def initFs (entries : List (Path × Node Nat)) : FS Nat :=
+  fun q => (entries.find? (fun e => e.1 == q)).map (·.2)
+
+def splitBar (ts : List String) : List (List String) :=
+  ts.foldr (fun t acc =>
+    if t == "|" then [] :: acc
+    else match acc with
+      | [] => [[t]]
+      | a :: rest => (t :: a) :: rest) [[]]
+
+def parsePaths (ts : List String) : Option (List Path) := ts.mapM parsePath
+
+def stepPaths : Step Nat → List Path
+  | .create p => [p] | .openAppend p => [p] | .append p _ => [p] | .truncate p _ => [p]
+  | .close p => [p] | .fsync p => [p] | .rename a b => [a, b] | .unlink p => [p]
+  | .mkdir p => [p] | .rmdir p => [p] | .symlink _ p => [p] | .read p => [p]
+
+def tagOf (fs0 final f : FS Nat) (t : Path) : String :=
+  if f t = fs0 t then "old"
+  else if f t = final t then "new"
+  else match f t with
+    | none => "absent"
+    | some (.file _) => "torn"
+    | some _ => "other"
+
+def insertSorted (s : String) : List String → List String
+  | [] => [s]
+  | x :: xs => if s < x then s :: x :: xs else if s = x then x :: xs else x :: insertSorted s xs
+
+def pathHex (p : Path) : String := toHex ("/".intercalate p)
+
+def kindOf (w : W Nat) : String :=
+  if w.tmp = tmpOf w.t then "tmpOf" else if w.tmp = tildeOf w.t then "tildeOf" else "other"
+
+def boolStr (b : Bool) : String := if b then "true" else "false"
+
+def stepFs (line : String) : String :=
+  match splitBar (tokens line) with
+  | ["atomic" :: ts, steps] =>
+    match parsePaths ts, parseSteps (steps.length + 1) steps with
+    | some targets, some ss => " ".intercalate (targets.map (fun t => boolStr (AtomicOn t ss)))
+    | _, _ => "bad-value"
+  | [["proto"], steps] =>
+    match parseSteps (steps.length + 1) steps with
+    | some ss =>
+      match asFlush ss with
+      | some ws => " ".intercalate ("flush" :: ws.map (fun w => pathHex w.t ++ ":" ++ kindOf w))
+      | none => "none"
+    | none => "bad-value"
+  | ["crash" :: k :: p :: ts, ini, steps] =>
+    match k.toNat?, p.toNat?, parsePaths ts, parseInit (ini.length + 1) ini, parseSteps (steps.length + 1) steps with
+    | some k, some p, some targets, some entries, some ss =>
+      let fs0 := initFs entries
+      let final := run fs0 ss
+      let f := crashAt fs0 ss k p
+      let mentioned := entries.map (·.1) ++ ss.flatMap stepPaths
+      let strays := (mentioned.filter (fun q => !targets.contains q && decide (f q ≠ fs0 q))).foldl
+        (fun acc q => insertSorted (pathHex q) acc) []
+      " ".intercalate (targets.map (tagOf fs0 final f)) ++ " strays=" ++ ",".intercalate strays
+    | _, _, _, _, _ => "bad-value"
+  | [["read", pos, t], ini, steps] =>
+    match pos.toNat?, parsePath t, parseInit (ini.length + 1) ini, parseSteps (steps.length + 1) steps with
+    | some pos, some t, some entries, some ss =>
+      let fs0 := initFs entries
+      let final := run fs0 ss
+      let log := readLog fs0 (ss.take pos ++ .read t :: ss.drop pos)
+      match log.filter (fun e => e.1 == t) with
+      | [(_, v)] => tagOf fs0 final (fun _ => v) t
+      | _ => "bad-value"
+    | _, _, _, _ => "bad-value"
+  | _ => "bad-op"
+
+def main : IO Unit := driverLoop stepFs
